@@ -307,7 +307,7 @@ def selftest() -> None:
 
 def run(ctx: Ctx) -> None:
     ipsec.selftest()
-    bound = 4 if ctx.thorough else 2
+    bound = 5 if ctx.thorough else 2
     max_seq = 5 if ctx.thorough else 4
     ctx.rule = (
         f"(a) explicit-state search to a fixpoint of the real SecureSession receive path after a real handshake with the simulated secure server: state = last accepted sequence number 0..{max_seq}; "
